@@ -755,11 +755,18 @@ impl TypeAggregator {
             }
         }
 
-        if let Some(kind) = self.remapped.get(&Type::Interface(id)) {
-            return match kind {
-                Type::Interface(id) => Ok(*id),
-                _ => panic!("expected an interface"),
-            };
+        // An interface without an identifier is a requirement of the one place that
+        // mentions it: every mention gets its own copy, so it is neither looked up in nor
+        // recorded in `remapped`.  (A shared copy would be enlarged through all of its
+        // parents whenever one of them is merged with another requirement.)  Interfaces
+        // with an identifier are unified above.
+        if types[id].id.is_some() {
+            if let Some(kind) = self.remapped.get(&Type::Interface(id)) {
+                return match kind {
+                    Type::Interface(id) => Ok(*id),
+                    _ => panic!("expected an interface"),
+                };
+            }
         }
 
         let ty = &types[id];
@@ -790,12 +797,13 @@ impl TypeAggregator {
         };
 
         let remapped = self.types.add_interface(interface);
-        let prev = self
-            .remapped
-            .insert(Type::Interface(id), Type::Interface(remapped));
-        assert!(prev.is_none());
 
         if let Some(name) = self.types[remapped].id.as_ref() {
+            let prev = self
+                .remapped
+                .insert(Type::Interface(id), Type::Interface(remapped));
+            assert!(prev.is_none());
+
             let prev = self.interfaces.insert(name.clone(), remapped);
             assert!(prev.is_none());
         }
